@@ -85,21 +85,17 @@ func wrapStream(r *mon.Rand, ru rule, forced *big.Int) []byte {
 	return append(s, r.Bytes(32*tailBlocks)...)
 }
 
-func retrySign(e *env, c *mon.Case, curve, cond string) {
+// forcedDigest returns the 32-byte digest for which key d has to discard nonce k1 under the given
+// condition of GB/T 32918.2 6.1 (r = 0, r + k = n, s = 0) on the named curve.
+func forcedDigest(curve, cond string, d, k1 *big.Int) []byte {
 	n := sm2N
-	ru := ruleSM2Nonce
-	if curve == "nistp256" {
-		n, ru = nistN, ruleNISTNonce
-	}
-	d := randScalar(c.R, n)
-	k1 := genValue(c.R, ru, validKinds[c.R.Intn(len(validKinds))])
 	var x1 *big.Int
 	if curve == "sm2" {
 		x1 = ec.BaseMul(k1).X
 	} else {
+		n = nistN
 		x1, _ = elliptic.P256().ScalarBaseMult(b32(k1))
 	}
-	// choose the digest e so that the first nonce has to be discarded
 	var ev *big.Int
 	switch cond {
 	case "r=0": // e = -x1
@@ -110,8 +106,19 @@ func retrySign(e *env, c *mon.Case, curve, cond string) {
 		ev = new(big.Int).Mul(k1, new(big.Int).ModInverse(d, n))
 		ev.Sub(ev, x1)
 	}
-	ev.Mod(ev, n)
-	hash := b32(ev)
+	return b32(ev.Mod(ev, n))
+}
+
+func retrySign(e *env, c *mon.Case, curve, cond string) {
+	n := sm2N
+	ru := ruleSM2Nonce
+	if curve == "nistp256" {
+		n, ru = nistN, ruleNISTNonce
+	}
+	d := randScalar(c.R, n)
+	k1 := genValue(c.R, ru, validKinds[c.R.Intn(len(validKinds))])
+	// choose the digest e so that the first nonce has to be discarded
+	hash := forcedDigest(curve, cond, d, k1)
 	var o *op
 	var call *call
 	variant := "SignASN1(hash)"
@@ -120,6 +127,9 @@ func retrySign(e *env, c *mon.Case, curve, cond string) {
 	}
 	if curve != "sm2" && (pureGo() || c.R.Bool()) {
 		variant += curveParams
+	}
+	if curve == "sm2" && c.R.Intn(3) == 0 {
+		variant += paramsCopy // the same conditions on the math/big path over the SM2 parameters
 	}
 	for _, cand := range sm2Ops() {
 		if (curve == "sm2" && cand.name == "sm2.sign") || (curve != "sm2" && cand.name == "sm2.sign.nistp256") {
@@ -156,7 +166,7 @@ func opByName(name string) *op {
 
 func retryEncrypt(e *env, c *mon.Case, i int, follow string) {
 	o := opByName("sm2.encrypt")
-	variant := []string{"Encrypt(nil)", "Encrypt(compressed)", "EncryptASN1", "Encrypt(C1C2C3)"}[c.R.Intn(4)]
+	variant := []string{"Encrypt(nil)", "Encrypt(compressed)", "EncryptASN1", "Encrypt(C1C2C3)", "Encrypt(nil)" + paramsCopy, "EncryptASN1" + paramsCopy}[c.R.Intn(6)]
 	call := sm2EncryptCall(zeroTd, c.R.Bytes(1), variant)
 	stream := wrapStream(c.R, o.rule, zeroTSM2[i])
 	if follow == "one" { // the nonce after the discarded one is 1: [1]P_B is P_B again, whatever happened to it
